@@ -20,10 +20,12 @@ the id is the one any from-scratch builder of canonical trees (git) computes
 (`history_write_matches_scratch_build`).
 
 Assumed of the id function (`HashOk`): injective, `hash [] = empty-tree id`, never the null id.
-Domain (`ValidOp`): non-empty paths of non-empty slash-free components; upserted kinds are
-non-tree (blob, executable, link, commit; a null id makes a placeholder = nothing); `set_root`
-trees are canonical stored trees; cursor operations need a live cursor. Upserts of kind `Tree`
-(grafting a stored tree, or the empty tree, as a leaf) are outside this domain.
+Domain (`ValidOp`/`ValidF`): non-empty paths of non-empty slash-free components; upserts of a
+non-tree kind (blob, executable, link, commit; a null id makes a placeholder = nothing) or of kind
+`Tree` with the id of a stored tree (a graft, `upsert_tree_refines`); `set_root` trees are
+canonical stored trees; cursor operations need a live cursor. Outside: kind `Tree` with the
+empty-tree id (an entry git never writes) and with the NULL id — for the latter the refinement
+is FALSE of the code (`null_tree_placeholder_blocks_edits`, a recorded finding).
 -/
 namespace GixModel.Props.C04
 open GixModel GixModel.Tree GixModel.C04
@@ -41,6 +43,24 @@ theorem upsert_refines (ed : Ed) (hinv : Inv ed) (p : Path) (hp : ValidPath p) (
     (id : Bytes) (hk : isTreeMode mode = false) :
     ∃ ed', upsert ed p mode id = .ok ed' ∧ Inv ed' ∧ ed'.store = ed.store ∧
       abs ed' = Spec.C04.upsert p (leafVal mode id) (abs ed) := upsert_spec hinv hp hk
+
+/-- `Editor::upsert(path, Tree, id)` with the id of a stored tree (loaded through `find` when an edit
+goes below it later) refines `Spec.graft`: the stored tree's whole content appears at `path`. -/
+theorem upsert_tree_refines (ed : Ed) (hinv : Inv ed) (p : Path) (hp : ValidPath p) (id : Bytes)
+    (ts : List Entry) (hst : aget id ed.store = some ts) (hne : id ≠ emptyTreeId) :
+    ∃ ed', upsert ed p 0o040000 id = .ok ed' ∧ Inv ed' ∧ ed'.store = ed.store ∧
+      abs ed' = Spec.C04.graft p (absStore ed.store ts) (abs ed) := upsert_tree_spec hinv hp hst hne
+
+/-- An explicit NULL-id tree placeholder is NOT refined: the upsert itself succeeds, but the next
+edit below it fails with a find error (`find_tree(null)`), although the documentation of `upsert`
+says "paths leading through [placeholders] will not be considered a problem". Witness, replayed
+against the real code by the harness corpus (known finding, see known-findings.txt). -/
+theorem null_tree_placeholder_blocks_edits :
+    (match upsert emptyEd [[97]] 0o040000 nullId with
+     | .ok ed1 => (match upsert ed1 [[97], [98]] 0o100644 [1] with
+                   | .errFind _ => true
+                   | _ => false)
+     | _ => false) = true := by decide +kernel
 
 /-- `Editor::remove(path)` refines `Spec.remove` (the leaf, or the whole sub-tree, disappears). -/
 theorem remove_refines (ed : Ed) (hinv : Inv ed) (p : Path) (hp : ValidPath p) :
@@ -84,6 +104,15 @@ theorem cursor_upsert_refines (ed : Ed) (hinv : Inv ed) (pfx : Path) (t : List E
       (aget pfx ed'.trees).isSome = true ∧
       abs ed' = Spec.C04.upsert (pfx ++ p) (leafVal mode id) (abs ed) :=
   cursorUpsert_spec hinv hP hp hk
+
+/-- `Cursor::upsert` of kind Tree with the id of a stored tree refines `Spec.graft (pfx ++ p)`. -/
+theorem cursor_upsert_tree_refines (ed : Ed) (hinv : Inv ed) (pfx : Path) (t : List Entry)
+    (hP : aget pfx ed.trees = some t) (p : Path) (hp : ValidPath p) (id : Bytes) (ts : List Entry)
+    (hst : aget id ed.store = some ts) (hne : id ≠ emptyTreeId) :
+    ∃ ed', cursorUpsert ed pfx p 0o040000 id = .ok ed' ∧ Inv ed' ∧ ed'.store = ed.store ∧
+      (aget pfx ed'.trees).isSome = true ∧
+      abs ed' = Spec.C04.graft (pfx ++ p) (absStore ed.store ts) (abs ed) :=
+  cursorUpsert_tree_spec hinv hP hp hst hne
 
 /-- `Cursor::remove` refines `Spec.remove (pfx ++ p)`. -/
 theorem cursor_remove_refines (ed : Ed) (hinv : Inv ed) (pfx : Path) (t : List Entry)
@@ -159,9 +188,9 @@ example :
   intro op hop
   simp only [List.mem_cons, List.not_mem_nil, or_false] at hop
   rcases hop with rfl | rfl | rfl
-  · exact ⟨by decide, by decide⟩
+  · exact ⟨by decide, Or.inl (by decide)⟩
   · exact (by decide : ValidPath [[97]])
-  · exact ⟨by decide, by decide⟩
+  · exact ⟨by decide, Or.inl (by decide)⟩
 
 -- non-vacuity of `history_refines`: a history through a cursor, with a cursor write in the middle
 example :
@@ -172,7 +201,7 @@ example :
       = some (some (0o100755, [2]), none) := by
   refine ⟨?_, by decide +kernel⟩
   simp only [ValidF]
-  refine ⟨⟨by decide, by decide⟩, by decide, ⟨rfl, by decide, by decide, ?_⟩⟩
+  refine ⟨⟨by decide, Or.inl (by decide)⟩, by decide, ⟨rfl, by decide, Or.inl (by decide), ?_⟩⟩
   exact ⟨rfl, ⟨rfl, by decide, ⟨trivial, trivial⟩⟩⟩
 
 end GixModel.Props.C04
